@@ -1124,6 +1124,13 @@ fn enabled_c01(w: &RouterWorld, cfg: &Cfg, v: &mut Vec<(Act, u8)>) {
                 if f == 0 && cfg.variant < 2 {
                     // publish on the own subscription and unsubscribe, one batch
                     v.push((Act::Batch { c, kind: 5 }, 0));
+                    // the same filter again with the other QoS: the SUBACK grants it
+                    let cur = w.model.clients[c as usize].subs.iter().find(|s| s.active && s.filter == *fs).map(|s| s.qos);
+                    for &q in sub_qos {
+                        if Some(q) != cur {
+                            v.push((Act::Sub { c, f, qos: q }, 0));
+                        }
+                    }
                 }
             } else if active_subs(w, c) < if cfg.variant == 4 { 3 } else { 2 } {
                 for &q in sub_qos {
